@@ -1,0 +1,8 @@
+// Copyright (c) 2026, Daniel Martí <mvdan@mvdan.cc>
+// See LICENSE for licensing information
+
+//go:build !verif
+
+package interp
+
+func verifYield(string) {}
